@@ -21,6 +21,8 @@ func main() {
 		name, text = "Flags.lean", trFlags(repo)
 	case "hits":
 		name, text = "Hits.lean", trHits(repo)
+	case "removeseq":
+		name, text = "Removeseq.lean", trRemoveseq(repo)
 	case "isquad":
 		name, text = "Isquad.lean", trIsquad(repo)
 	case "quadrants":
